@@ -17,6 +17,7 @@
 //!    random sparse/dense} × {strict, non-strict, several maxima} × initial buffer capacities,
 //!    random Pending patterns; a few runs on a multi-thread runtime; streams with a truncated
 //!    last PDU (must end in an error, never in a made-up PDU).
+//!  * `net` (stream 3): see the section "leg net" below (real associations over loopback TCP).
 
 use crate::gen::pdu::*;
 use crate::props::c25::encode;
@@ -334,7 +335,8 @@ fn judge(sent: &[Pdu], stream_len: usize, seen: &Seen, truncated_tail: bool) -> 
         } else if closed {
             "early-connection-closed".to_string()
         } else {
-            format!("early-error|{}", path)
+            // (the variant depends on which garbage was parsed; it is in the description only)
+            "early-error".to_string()
         };
         return Some((
             class,
@@ -385,6 +387,7 @@ struct Case<'a> {
     data: &'a Arc<Vec<u8>>,
     offsets: &'a [usize],
     truncated_tail: bool,
+    solo_ok: bool,
     segkind: &'a str,
     leg: &'a str,
     stream: u64,
@@ -429,7 +432,7 @@ fn run_both(l: &mut Local, c: &Case, segs: Arc<Vec<usize>>, rx: RxCfg, plan: Pen
             l.count("sync_pdus_received", seen.got.len() as u64);
             if let Some((k, what)) = judge(c.sent, c.data.len(), &seen, c.truncated_tail) {
                 l.violation(
-                    format!("read_pdu_from_wire|{}|{}", c.segkind, k),
+                    format!("read_pdu_from_wire|{}|{}{}", c.segkind, k, if c.solo_ok { "" } else { "|plain-read_pdu-fails-too" }),
                     format!("sync receiver, {} segments ({}): {}", segs.len(), c.segkind, what),
                     replay_doc(c, &segs, rx, "read_pdu_from_wire", None, &seen),
                 );
@@ -464,7 +467,7 @@ fn run_both(l: &mut Local, c: &Case, segs: Arc<Vec<usize>>, rx: RxCfg, plan: Pen
             }
             if let Some((k, what)) = judge(c.sent, c.data.len(), &seen, c.truncated_tail) {
                 l.violation(
-                    format!("read_pdu_from_wire_async|{}|{}", c.segkind, k),
+                    format!("read_pdu_from_wire_async|{}|{}{}", c.segkind, k, if c.solo_ok { "" } else { "|plain-read_pdu-fails-too" }),
                     format!(
                         "async receiver, {} segments ({}), {} Pending answers: {}",
                         segs.len(),
@@ -481,11 +484,13 @@ fn run_both(l: &mut Local, c: &Case, segs: Arc<Vec<usize>>, rx: RxCfg, plan: Pen
     }
 }
 
-/// Encode a sequence; None if some PDU does not survive write→read on its own (that is C25's
-/// business and would only produce duplicate alarms here).
-fn encode_seq(l: &mut Local, sent: &[Pdu]) -> Option<(Vec<u8>, Vec<usize>)> {
+/// Encode a sequence with `write_pdu`. Returns (stream, offsets, solo_ok) where `solo_ok` tells
+/// whether every PDU, given alone and complete to `read_pdu`, reads back equal (if not, a
+/// reception failure is not specific to segmentation: the key gets a suffix saying so).
+fn encode_seq(l: &mut Local, sent: &[Pdu]) -> Option<(Vec<u8>, Vec<usize>, bool)> {
     let mut data = Vec::new();
     let mut offsets = Vec::new();
+    let mut solo_ok = true;
     for p in sent {
         let b = match encode(p) {
             Ok(Ok(b)) => b,
@@ -497,14 +502,16 @@ fn encode_seq(l: &mut Local, sent: &[Pdu]) -> Option<(Vec<u8>, Vec<usize>)> {
         match guarded(|| read_pdu(&b[..], MAXIMUM_PDU_SIZE, false)) {
             Ok(Ok(Some(q))) if &q == p => {}
             _ => {
-                l.count("skipped_sequences_c25_roundtrip_failure", 1);
-                return None;
+                solo_ok = false;
             }
         }
         offsets.push(data.len());
         data.extend_from_slice(&b);
     }
-    Some((data, offsets))
+    if !solo_ok {
+        l.count("sequences_with_a_pdu_failing_plain_read_pdu", 1);
+    }
+    Some((data, offsets, solo_ok))
 }
 
 // ---------------------------------------------------------------------------------------------
@@ -619,16 +626,16 @@ fn leg_exh(cfg: &Cfg) -> (Local, Value) {
     let cat = catalogue();
     let full_limit = if cfg.thorough() { 21 } else { 16 };
     let mut pre = Local::new();
-    let mut streams: Vec<(Vec<Pdu>, Arc<Vec<u8>>, Vec<usize>)> = Vec::new();
+    let mut streams: Vec<(Vec<Pdu>, Arc<Vec<u8>>, Vec<usize>, bool)> = Vec::new();
     for seq in cat {
-        if let Some((data, offsets)) = encode_seq(&mut pre, &seq) {
-            streams.push((seq, Arc::new(data), offsets));
+        if let Some((data, offsets, solo_ok)) = encode_seq(&mut pre, &seq) {
+            streams.push((seq, Arc::new(data), offsets, solo_ok));
         }
     }
     let mut items = Vec::new();
     let mut n_full = 0u64;
     let mut n_cuts = 0u64;
-    for (si, (_, data, _)) in streams.iter().enumerate() {
+    for (si, (_, data, _, _)) in streams.iter().enumerate() {
         let n = data.len();
         if n <= full_limit {
             let total = 1u64 << (n - 1);
@@ -660,7 +667,7 @@ fn leg_exh(cfg: &Cfg) -> (Local, Value) {
         },
         |l: &mut Local, _rng: &mut Rng, idx: u64| {
             let it = &items[idx as usize];
-            let (sent, data, offsets) = &streams[it.stream];
+            let (sent, data, offsets, solo_ok) = &streams[it.stream];
             let n = data.len();
             let plen_max = offsets
                 .iter()
@@ -673,6 +680,7 @@ fn leg_exh(cfg: &Cfg) -> (Local, Value) {
                 data,
                 offsets,
                 truncated_tail: false,
+                solo_ok: *solo_ok,
                 segkind: if it.mode == 0 { "exhaustive-all-segmentations" } else { "exhaustive-cut-tuples" },
                 leg: "exh",
                 stream: 1,
@@ -870,7 +878,7 @@ fn leg_rnd(cfg: &Cfg) -> Local {
                     sent.push(gen_pdu(rng, &opts));
                 }
             }
-            let (mut data, offsets) = match encode_seq(l, &sent) {
+            let (mut data, offsets, solo_ok) = match encode_seq(l, &sent) {
                 Some(x) => x,
                 None => return,
             };
@@ -915,6 +923,7 @@ fn leg_rnd(cfg: &Cfg) -> Local {
                 data: &data,
                 offsets: &offsets,
                 truncated_tail,
+                solo_ok,
                 segkind: kind,
                 leg: "rnd",
                 stream: 2,
@@ -950,6 +959,500 @@ fn leg_rnd(cfg: &Cfg) -> Local {
     )
 }
 
+
+// ---------------------------------------------------------------------------------------------
+// leg net — the same property through real associations over loopback TCP
+//
+// A scripted raw-socket peer (plain threads, no dicom-rs association code) performs the other half
+// of the handshake and then writes `handshake PDU ++ stream` in a prescribed sequence of `write`
+// calls (TCP_NODELAY, optional pauses), so that the handshake PDU is coalesced with / split from
+// the PDUs that follow; then it half-closes. The library side is `ClientAssociation`,
+// `AsyncClientAssociation`, `ServerAssociation` or `AsyncServerAssociation` and calls `receive()`
+// until it fails. The kernel is free to re-segment, which cannot change the expected result.
+
+use dicom_ul::association::{ClientAssociationOptions, ServerAssociationOptions};
+use dicom_ul::pdu::{
+    AssociationAC, AssociationRQ, PresentationContextProposed, PresentationContextResult,
+    PresentationContextResultReason, UserVariableItem,
+};
+use std::io::Write;
+use std::net::{TcpListener, TcpStream};
+
+const VERIFICATION: &str = "1.2.840.10008.1.1";
+const IMPLICIT_LE: &str = "1.2.840.10008.1.2";
+
+fn read_one_pdu_raw(s: &mut TcpStream) -> std::io::Result<Vec<u8>> {
+    let mut head = [0u8; 6];
+    s.read_exact(&mut head)?;
+    let n = u32::from_be_bytes([head[2], head[3], head[4], head[5]]) as usize;
+    let mut body = vec![0u8; n];
+    s.read_exact(&mut body)?;
+    let mut v = head.to_vec();
+    v.extend_from_slice(&body);
+    Ok(v)
+}
+
+/// Write `bytes` as the given write-call sizes, then half-close and wait for the other side.
+fn scripted_writes(mut s: TcpStream, bytes: &[u8], segs: &[usize], pause_us: u64) {
+    let _ = s.set_nodelay(true);
+    let mut pos = 0;
+    for &n in segs {
+        let end = (pos + n).min(bytes.len());
+        if s.write_all(&bytes[pos..end]).is_err() {
+            return;
+        }
+        let _ = s.flush();
+        pos = end;
+        if pause_us > 0 {
+            std::thread::sleep(Duration::from_micros(pause_us));
+        } else {
+            std::thread::yield_now();
+        }
+    }
+    if pos < bytes.len() {
+        let _ = s.write_all(&bytes[pos..]);
+    }
+    let _ = s.shutdown(std::net::Shutdown::Write);
+    // absorb whatever the library side still sends (abort/release on drop) until it closes
+    let _ = s.set_read_timeout(Some(Duration::from_secs(20)));
+    let mut sink = [0u8; 4096];
+    while let Ok(n) = s.read(&mut sink) {
+        if n == 0 {
+            break;
+        }
+    }
+}
+
+fn handshake_ac(rq_bytes: &[u8]) -> Option<Vec<u8>> {
+    let rq = match read_pdu(rq_bytes, MAXIMUM_PDU_SIZE, false) {
+        Ok(Some(Pdu::AssociationRQ(rq))) => rq,
+        _ => return None,
+    };
+    let ac = Pdu::AssociationAC(AssociationAC {
+        protocol_version: 1,
+        calling_ae_title: rq.calling_ae_title.clone(),
+        called_ae_title: rq.called_ae_title.clone(),
+        application_context_name: rq.application_context_name.clone(),
+        presentation_contexts: rq
+            .presentation_contexts
+            .iter()
+            .map(|pc| PresentationContextResult {
+                id: pc.id,
+                reason: PresentationContextResultReason::Acceptance,
+                transfer_syntax: IMPLICIT_LE.to_string(),
+            })
+            .collect(),
+        user_variables: vec![
+            UserVariableItem::MaxLength(DEFAULT_MAX_PDU),
+            UserVariableItem::ImplementationClassUID("1.2.826.0.1.3680043.9.9999.1".into()),
+            UserVariableItem::ImplementationVersionName("VERIF-PEER".into()),
+        ],
+    });
+    encode(&ac).ok()?.ok()
+}
+
+fn handshake_rq() -> Vec<u8> {
+    let rq = Pdu::AssociationRQ(AssociationRQ {
+        protocol_version: 1,
+        calling_ae_title: "VERIF-SCU".into(),
+        called_ae_title: "ANY-SCP".into(),
+        application_context_name: "1.2.840.10008.3.1.1.1".into(),
+        presentation_contexts: vec![PresentationContextProposed {
+            id: 1,
+            abstract_syntax: VERIFICATION.into(),
+            transfer_syntaxes: vec![IMPLICIT_LE.into()],
+        }],
+        user_variables: vec![
+            UserVariableItem::MaxLength(DEFAULT_MAX_PDU),
+            UserVariableItem::ImplementationClassUID("1.2.826.0.1.3680043.9.9999.2".into()),
+            UserVariableItem::ImplementationVersionName("VERIF-PEER".into()),
+        ],
+    });
+    encode(&rq).expect("encode rq").expect("encode rq")
+}
+
+thread_local! {
+    static RT_IO: tokio::runtime::Runtime = tokio::runtime::Builder::new_current_thread()
+        .enable_all()
+        .build()
+        .expect("tokio runtime with io");
+}
+
+/// What the library side observed: Err(text) = could not even establish.
+type NetSeen = Result<Seen, String>;
+
+fn seen_from(got: Vec<Pdu>, err: Option<(bool, String)>, again_ok: bool, stream_len: usize) -> Seen {
+    // over a real socket the byte counters are not observable; a clean end implies all were read
+    Seen { got, err, again_ok, consumed: stream_len, leftover: 0, reads: 0, pendings: 0, budget_hit: false }
+}
+
+fn is_timeout(path: &str, e: &AssocError) -> bool {
+    path.contains("Timeout") || format!("{}", e).contains("timed out") || format!("{:?}", e).contains("WouldBlock") || format!("{:?}", e).contains("TimedOut")
+}
+
+#[allow(clippy::too_many_arguments)]
+fn net_case(flavour: u64, stream: Arc<Vec<u8>>, n_sent: usize, handshake_cuts: Arc<Vec<usize>>, pause_us: u64, timeouts: &mut u64) -> NetSeen {
+    let listener = TcpListener::bind("127.0.0.1:0").map_err(|e| format!("harness: bind: {}", e))?;
+    let addr = listener.local_addr().map_err(|e| format!("harness: addr: {}", e))?;
+    let stream_len = stream.len();
+    let rd_to = Duration::from_secs(30);
+    match flavour {
+        0 | 1 => {
+            // library = requestor; peer = scripted acceptor
+            let peer = std::thread::spawn(move || {
+                if let Ok((mut s, _)) = listener.accept() {
+                    let _ = s.set_read_timeout(Some(Duration::from_secs(20)));
+                    if let Ok(rq) = read_one_pdu_raw(&mut s) {
+                        if let Some(ac) = handshake_ac(&rq) {
+                            let mut all = ac.clone();
+                            all.extend_from_slice(&stream);
+                            let segs = segs_for(&handshake_cuts, ac.len(), all.len());
+                            scripted_writes(s, &all, &segs, pause_us);
+                        }
+                    }
+                }
+            });
+            let opts = ClientAssociationOptions::new()
+                .with_abstract_syntax(VERIFICATION)
+                .calling_ae_title("VERIF-SCU")
+                .called_ae_title("ANY-SCP")
+                .read_timeout(rd_to);
+            let res: NetSeen = if flavour == 0 {
+                match opts.establish(addr) {
+                    Err(e) => Err(format!("{}", err_path(&e).1)),
+                    Ok(mut a) => {
+                        let mut got = Vec::new();
+                        let mut err = None;
+                        let mut again_ok = false;
+                        loop {
+                            match a.receive() {
+                                Ok(p) => {
+                                    got.push(p);
+                                    if got.len() > n_sent + 2 {
+                                        break;
+                                    }
+                                }
+                                Err(e) => {
+                                    let ep = err_path(&e);
+                                    if is_timeout(&ep.1, &e) {
+                                        *timeouts += 1;
+                                    }
+                                    err = Some(ep);
+                                    again_ok = a.receive().is_ok();
+                                    break;
+                                }
+                            }
+                        }
+                        drop(a);
+                        Ok(seen_from(got, err, again_ok, stream_len))
+                    }
+                }
+            } else {
+                RT_IO.with(|rt| {
+                    rt.block_on(async {
+                        match opts.establish_async(addr).await {
+                            Err(e) => Err(format!("{}", err_path(&e).1)),
+                            Ok(mut a) => {
+                                let mut got = Vec::new();
+                                let mut err = None;
+                                let mut again_ok = false;
+                                loop {
+                                    match a.receive().await {
+                                        Ok(p) => {
+                                            got.push(p);
+                                            if got.len() > n_sent + 2 {
+                                                break;
+                                            }
+                                        }
+                                        Err(e) => {
+                                            let ep = err_path(&e);
+                                            if is_timeout(&ep.1, &e) {
+                                                *timeouts += 1;
+                                            }
+                                            err = Some(ep);
+                                            again_ok = a.receive().await.is_ok();
+                                            break;
+                                        }
+                                    }
+                                }
+                                drop(a);
+                                Ok(seen_from(got, err, again_ok, stream_len))
+                            }
+                        }
+                    })
+                })
+            };
+            let _ = peer.join();
+            res
+        }
+        _ => {
+            // library = acceptor; peer = scripted requestor
+            let peer = std::thread::spawn(move || {
+                if let Ok(s) = TcpStream::connect(addr) {
+                    let rq = handshake_rq();
+                    let mut all = rq.clone();
+                    all.extend_from_slice(&stream);
+                    let segs = segs_for(&handshake_cuts, rq.len(), all.len());
+                    scripted_writes(s, &all, &segs, pause_us);
+                }
+            });
+            let res: NetSeen = if flavour == 2 {
+                let (sock, _) = listener.accept().map_err(|e| format!("harness: accept: {}", e))?;
+                let opts = ServerAssociationOptions::new()
+                    .accept_any()
+                    .with_abstract_syntax(VERIFICATION)
+                    .read_timeout(rd_to);
+                match opts.establish(sock) {
+                    Err(e) => Err(format!("{}", err_path(&e).1)),
+                    Ok(mut a) => {
+                        let mut got = Vec::new();
+                        let mut err = None;
+                        let mut again_ok = false;
+                        loop {
+                            match a.receive() {
+                                Ok(p) => {
+                                    got.push(p);
+                                    if got.len() > n_sent + 2 {
+                                        break;
+                                    }
+                                }
+                                Err(e) => {
+                                    let ep = err_path(&e);
+                                    if is_timeout(&ep.1, &e) {
+                                        *timeouts += 1;
+                                    }
+                                    err = Some(ep);
+                                    again_ok = a.receive().is_ok();
+                                    break;
+                                }
+                            }
+                        }
+                        drop(a);
+                        Ok(seen_from(got, err, again_ok, stream_len))
+                    }
+                }
+            } else {
+                let (sock, _) = listener.accept().map_err(|e| format!("harness: accept: {}", e))?;
+                sock.set_nonblocking(true).map_err(|e| format!("harness: nonblocking: {}", e))?;
+                RT_IO.with(|rt| {
+                    rt.block_on(async {
+                        let sock = tokio::net::TcpStream::from_std(sock).map_err(|e| format!("harness: from_std: {}", e))?;
+                        let opts = ServerAssociationOptions::new()
+                            .accept_any()
+                            .with_abstract_syntax(VERIFICATION)
+                            .read_timeout(rd_to);
+                        match opts.establish_async(sock).await {
+                            Err(e) => Err(format!("{}", err_path(&e).1)),
+                            Ok(mut a) => {
+                                let mut got = Vec::new();
+                                let mut err = None;
+                                let mut again_ok = false;
+                                loop {
+                                    match a.receive().await {
+                                        Ok(p) => {
+                                            got.push(p);
+                                            if got.len() > n_sent + 2 {
+                                                break;
+                                            }
+                                        }
+                                        Err(e) => {
+                                            let ep = err_path(&e);
+                                            if is_timeout(&ep.1, &e) {
+                                                *timeouts += 1;
+                                            }
+                                            err = Some(ep);
+                                            again_ok = a.receive().await.is_ok();
+                                            break;
+                                        }
+                                    }
+                                }
+                                drop(a);
+                                Ok(seen_from(got, err, again_ok, stream_len))
+                            }
+                        }
+                    })
+                })
+            };
+            let _ = peer.join();
+            res
+        }
+    }
+}
+
+/// The write-call sizes over `handshake ++ stream`: `cuts` are positions relative to the END of
+/// the handshake PDU (negative = inside the handshake), as i64 encoded in usize with an offset.
+fn segs_for(rel_cuts: &[usize], handshake_len: usize, total: usize) -> Vec<usize> {
+    // rel_cuts are stored as (position + 1_000_000) to allow "negative" values
+    let mut cuts: Vec<usize> = rel_cuts
+        .iter()
+        .filter_map(|&c| {
+            let p = handshake_len as i64 + c as i64 - 1_000_000;
+            if p > 0 && (p as usize) < total {
+                Some(p as usize)
+            } else {
+                None
+            }
+        })
+        .collect();
+    cuts.sort_unstable();
+    cuts.dedup();
+    cuts_to_segs(&cuts, total)
+}
+
+const NET_KINDS: [&str; 7] = [
+    "all-in-one-write",
+    "handshake-then-rest",
+    "handshake-plus-partial-pdu",
+    "split-inside-handshake",
+    "per-pdu-writes",
+    "random-writes",
+    "small-writes",
+];
+
+fn leg_net(cfg: &Cfg) -> Local {
+    let n = cfg.n(3_000, 60_000);
+    run_parallel(
+        cfg,
+        3,
+        RunLimits {
+            cases: n,
+            wall: Duration::from_secs(if cfg.thorough() { 600 } else { 90 }),
+        },
+        |l: &mut Local, rng: &mut Rng, idx: u64| {
+            let flavour = idx % 4;
+            let fname = ["ClientAssociation", "AsyncClientAssociation", "ServerAssociation", "AsyncServerAssociation"][flavour as usize];
+            let n_pdus = rng.urange(1, 6);
+            let opts = if rng.chance(1, 4) {
+                PduOpts { kinds: None, max_pcs: 8, max_ts: 3, big: false, max_payload: 6000 }
+            } else {
+                PduOpts::small()
+            };
+            let mut sent: Vec<Pdu> = Vec::new();
+            for i in 0..n_pdus {
+                if i > 0 && rng.chance(1, 8) {
+                    let prev: Pdu = sent[i - 1].clone();
+                    sent.push(prev);
+                } else {
+                    sent.push(gen_pdu(rng, &opts));
+                }
+            }
+            let (data, offsets, solo_ok) = match encode_seq(l, &sent) {
+                Some(x) => x,
+                None => return,
+            };
+            let kind = *rng.pick(&NET_KINDS);
+            // cut positions relative to the end of the handshake PDU (+1_000_000 bias)
+            let rel = |p: i64| (p + 1_000_000) as usize;
+            let mut cuts: Vec<usize> = Vec::new();
+            match kind {
+                "all-in-one-write" => {}
+                "handshake-then-rest" => cuts.push(rel(0)),
+                "handshake-plus-partial-pdu" => {
+                    cuts.push(rel(rng.urange(1, data.len().min(12)) as i64));
+                    if rng.bool() {
+                        cuts.push(rel(rng.urange(1, data.len()) as i64));
+                    }
+                }
+                "split-inside-handshake" => {
+                    cuts.push(rel(-(rng.urange(1, 60) as i64)));
+                    if rng.bool() {
+                        cuts.push(rel(-(rng.urange(1, 6) as i64)));
+                    }
+                }
+                "per-pdu-writes" => {
+                    cuts.push(rel(0));
+                    for &o in offsets.iter().skip(1) {
+                        cuts.push(rel(o as i64));
+                    }
+                }
+                "random-writes" => {
+                    for _ in 0..rng.urange(1, 8) {
+                        cuts.push(rel(rng.range(-80, data.len() as i64)));
+                    }
+                }
+                _ => {
+                    // many small writes over the first part of the output
+                    let mut p: i64 = -(rng.urange(0, 40) as i64);
+                    for _ in 0..rng.urange(10, 60) {
+                        p += rng.urange(1, 9) as i64;
+                        cuts.push(rel(p));
+                    }
+                }
+            }
+            let pause_us = *rng.pick(&[0u64, 0, 50, 300, 1500]);
+            let data = Arc::new(data);
+            let case = Case {
+                sent: &sent,
+                data: &data,
+                offsets: &offsets,
+                truncated_tail: false,
+                solo_ok,
+                segkind: kind,
+                leg: "net",
+                stream: 3,
+                idx,
+                seed: cfg.seed,
+            };
+            l.eval();
+            l.class(format!("net|{}|{}|{}pdus|pause{}", fname, kind, sent.len(), pause_us));
+            l.count(&format!("net_{}", fname), 1);
+            let mut timeouts = 0u64;
+            let cuts = Arc::new(cuts);
+            let r = guarded(|| net_case(flavour, data.clone(), sent.len(), cuts.clone(), pause_us, &mut timeouts));
+            if timeouts > 0 {
+                l.count("net_timeouts_not_judged", timeouts);
+                l.note("a loopback receive timed out (machine load?): case not judged");
+                return;
+            }
+            let mk_replay = |seen: Option<&Seen>, extra: &str| {
+                json!({
+                    "seed": cfg.seed, "stream": 3, "case": idx, "leg": "net", "api": fname,
+                    "sent": sent.iter().map(pdu_json).collect::<Vec<_>>(),
+                    "stream_len": data.len(), "stream_hex": hex_short(&data[..], 1024),
+                    "write_script": kind, "pause_us": pause_us,
+                    "cuts_relative_to_end_of_handshake_pdu": cuts.iter().map(|c| *c as i64 - 1_000_000).collect::<Vec<_>>(),
+                    "received": seen.map(|s| s.got.iter().map(pdu_brief).collect::<Vec<_>>()),
+                    "ended_with": seen.and_then(|s| s.err.as_ref().map(|e| e.1.clone())),
+                    "note": extra,
+                })
+            };
+            match r {
+                Err(pn) => l.violation(
+                    format!("{}::receive|{}|panic|{}", fname, kind, panic_loc(&pn)),
+                    format!("panic: {}", pn),
+                    mk_replay(None, ""),
+                ),
+                Ok(Err(e)) if e.starts_with("harness:") => {
+                    l.count("net_harness_errors_not_judged", 1);
+                    l.note(format!("loopback setup problem, case not judged: {}", e));
+                }
+                Ok(Err(e)) => l.violation(
+                    format!("{}::establish|{}|failed", fname, kind),
+                    format!(
+                        "the association could not be established ({}) when the peer wrote its handshake PDU and {} following PDUs as script '{}'",
+                        e,
+                        sent.len(),
+                        kind
+                    ),
+                    mk_replay(None, &e),
+                ),
+                Ok(Ok(seen)) => {
+                    l.count("net_pdus_received", seen.got.len() as u64);
+                    if let Some((k, what)) = judge(case.sent, data.len(), &seen, false) {
+                        l.violation(
+                            format!("{}::receive|{}|{}{}", fname, kind, k, if solo_ok { "" } else { "|plain-read_pdu-fails-too" }),
+                            format!("{} over loopback, peer write script '{}': {}", fname, kind, what),
+                            mk_replay(Some(&seen), ""),
+                        );
+                    } else {
+                        l.count("net_connection_closed_at_end", 1);
+                    }
+                }
+            }
+        },
+    )
+}
+
 pub fn run(cfg: &Cfg) -> Outcome {
     let leg = cfg.opt("--leg");
     let want = |x: &str| leg.as_deref().map(|l| l == x).unwrap_or(cfg.only_case.is_none());
@@ -963,9 +1466,12 @@ pub fn run(cfg: &Cfg) -> Outcome {
     if want("rnd") {
         local.merge(leg_rnd(cfg));
     }
+    if want("net") {
+        local.merge(leg_net(cfg));
+    }
     let mut o = Outcome::new(
         local,
-        "public read_pdu_from_wire (scripted Read) and read_pdu_from_wire_async (scripted AsyncRead with self-waking Pending, inside tokio current-thread / multi-thread runtimes), one shared BytesMut per stream: received PDU list = sent list, no error before the stream is exhausted, ConnectionClosed exactly at the end with an empty buffer. exh: catalogue of short streams (1–8 PDUs), all 2^(n−1) segmentations for n ≤ 16 (thorough 21) bytes, all 1/2/3-cut tuples beyond; rnd: G-PDU sequences of 1–8 PDUs × 11 segmentation kinds × strict/non-strict × maxima × initial capacities × Pending patterns, 1/12 with a truncated last PDU. class = (leg, segmentation kind, #PDUs, stream size, mode / PDU kinds)",
+        "public read_pdu_from_wire (scripted Read) and read_pdu_from_wire_async (scripted AsyncRead with self-waking Pending, inside tokio current-thread / multi-thread runtimes), one shared BytesMut per stream: received PDU list = sent list, no error before the stream is exhausted, ConnectionClosed exactly at the end with an empty buffer. exh: catalogue of short streams (1–8 PDUs), all 2^(n−1) segmentations for n ≤ 16 (thorough 21) bytes, all 1/2/3-cut tuples beyond; rnd: G-PDU sequences of 1–8 PDUs × 11 segmentation kinds × strict/non-strict × maxima × initial capacities × Pending patterns, 1/12 with a truncated last PDU; net: real Client/Server associations (sync + async) over loopback against a scripted raw-socket peer that coalesces/splits the handshake PDU with the following 1–6 PDUs (7 write scripts). class = (leg, segmentation kind, #PDUs, stream size, mode / PDU kinds)",
     );
     o.extra = extra;
     if cfg.only_case.is_none() && leg.is_none() {
